@@ -180,7 +180,23 @@ def gen_base_hierarchy(rng, n, m):
     conds = []
     for i in range(1, depth):
         conds.append((V(chain[i - 1]), V(chain[i])))  # sub-class: (c_{i-1} | c_i)
-    for p in props[: rng.randrange(1, len(props) + 1)]:
+    used = props[: rng.randrange(1, len(props) + 1)]
+    if len(used) >= 2 and rng.random() < 0.4:
+        # parallel properties whose exception is ONE conjunctive conditional per level: (f|b),(g|b),(!f,!g|p),(b|p);
+        # forces impacts whose sum exceeds the number of conditionals; the remaining atoms give free defaults (x|Top)
+        par, free = used[:2], used[2:] + [a for a in props if a not in used]
+        pol = rng.random() < 0.5
+        for i in range(depth):
+            lits = [V(p) if (pol ^ (i % 2 == 1)) else Not(V(p)) for p in par]
+            if i == 0:
+                conds += [(l, V(chain[i])) for l in lits]
+            else:
+                conds.append((And(lits[0], lits[1]), V(chain[i])))
+        for x in free[:2]:
+            conds.append((V(x) if rng.random() < 0.5 else Not(V(x)), T))
+        rng.shuffle(conds)
+        return [(i + 1, b, a) for i, (b, a) in enumerate(conds)]
+    for p in used:
         pol = rng.random() < 0.5
         for i in range(depth):
             if rng.random() < 0.75:
